@@ -218,6 +218,15 @@ pub fn search(tier: &str, seed: u64, only: Option<&str>) {
             let mut p2 = vec![c.clone()]; p2.extend(dom3(lo, hi)); fixed.push(p2);
         }
     }
+    // a constraint posted on a variable that `==` has aliased to another one (the operand as posted is not the
+    // representative that carries the domain), observed both fully and with the aliased pair hidden
+    for (a, b) in [(1usize, 2usize), (2, 1), (0, 1), (1, 0)] {
+        for k in [C::Plus(A::V(a), A::V(a), A::K(3)), C::Plus(A::V(a), A::V(a), A::K(1)), C::Times(A::V(a), A::V(a), A::K(2)), C::Times(A::V(a), A::V(a), A::K(3)), C::Plus(A::V(a), A::V(b), A::K(3)), C::Lt(A::V(a), A::V(b))] {
+            let mut p = dom3(0, 3); p.push(C::Eq(A::V(a), A::V(b))); p.push(k.clone()); fixed.push(p);
+            let mut p = dom3(0, 3); p.push(k.clone()); p.push(C::Eq(A::V(a), A::V(b))); fixed.push(p);
+            let mut p = vec![C::DomR(0, 0, 3), C::DomR(b, 0, 3), C::Eq(A::V(a), A::V(b)), k.clone(), C::DomR(3 - a - b, 0, 3)]; if a + b == 3 { p.pop(); } fixed.push(p);
+        }
+    }
     for p in &fixed { if only.map_or(true, |o| show(p).contains(o)) { check(&mut rep, p); } }
     let mut r = Rng(0x9E3779B97F4A7C15 ^ (seed.wrapping_mul(0x2545F4914F6CDD1D)) | 1);
     for i in 0..n { let p = gen(&mut r, i % 2 == 0); check(&mut rep, &p); }
